@@ -726,8 +726,11 @@ func (m *Machine) deliver(o openRun, out Outcome) int {
 	if out.Kind == OutFail {
 		kind = fmt.Sprintf("exit %d", out.ExitCode)
 	}
+	if out.Kind == OutError {
+		kind = "error without exit status"
+	}
 	seq := m.stimulus("finish #%d/%s %s (allow_failure=%v)", o.j.AcceptIdx, o.rec.Task, kind, o.rec.AllowFail)
-	if out.Kind == OutFail && !o.rec.AllowFail {
+	if out.Kind != OutOK && !o.rec.AllowFail {
 		o.j.FailedTasks[o.rec.Task] = true
 		if o.j.FailSeq == 0 {
 			o.j.FailSeq = seq
@@ -743,7 +746,10 @@ func (m *Machine) deliver(o openRun, out Outcome) int {
 			m.w.Stats.hit("fail-continue")
 		}
 	}
-	if out.Kind == OutFail && o.rec.AllowFail {
+	if out.Kind == OutError && o.rec.AllowFail {
+		m.w.Stats.hit("fail-allowed:no-exit-status")
+	}
+	if out.Kind != OutOK && o.rec.AllowFail {
 		m.w.Stats.hit("fail-allowed")
 		for _, td := range o.j.Def.Tasks {
 			for _, d := range td.DependsOn {
@@ -753,7 +759,7 @@ func (m *Machine) deliver(o openRun, out Outcome) int {
 			}
 		}
 	}
-	if out.Kind == OutFail && !o.rec.AllowFail && len(o.j.Def.Tasks) >= 3 {
+	if out.Kind != OutOK && !o.rec.AllowFail && len(o.j.Def.Tasks) >= 3 {
 		m.w.Stats.hit("fail:with-3-tasks")
 	}
 	m.w.mu.Lock()
@@ -773,6 +779,9 @@ func (m *Machine) ActFinish(t *rapid.T, failPct int) {
 	out := Outcome{Kind: OutOK}
 	if pct(t, failPct, "fails") {
 		out = Outcome{Kind: OutFail, ExitCode: int16(rapid.SampledFrom([]int{1, 2, 127, 255}).Draw(t, "exitCode"))}
+		if rapid.IntRange(0, 3).Draw(t, "noExitStatus") == 0 {
+			out = Outcome{Kind: OutError}
+		}
 		if m.cfg.RichPayload {
 			out.ExitCode = int16(rapid.IntRange(1, 32767).Draw(t, "exitCode16"))
 			out.ErrText = payload.GenNonEmptyString(t, "errText")
@@ -1136,6 +1145,14 @@ func (m *Machine) checkVerdict(j *JobRec, js *JobSnap) {
 			case r.byCancel:
 				if t.Status == "done" && !r.allow {
 					m.fail("C08", "job #%d: task %s was stopped by a cancel but is reported done", j.AcceptIdx, t.Name)
+				}
+			case r.out.Kind == OutError && !r.allow:
+				if t.Status != "error" && t.Status != "canceled" || !t.Errored {
+					m.fail("C08", "job #%d: task %s failed without an exit status but is reported status=%s errored=%v", j.AcceptIdx, t.Name, t.Status, t.Errored)
+				}
+			case r.out.Kind == OutError && r.allow:
+				if t.Status == "error" {
+					m.fail("C08", "job #%d: task %s failed under allow_failure but is reported with status error", j.AcceptIdx, t.Name)
 				}
 			case r.out.Kind == OutFail && !r.allow:
 				if t.Status != "error" && t.Status != "canceled" || !t.Errored || t.ExitCode != r.out.ExitCode {
